@@ -484,9 +484,11 @@ class Linker:
 
                 # Apply code patch:
                 self.logger.debug("Applying patch for %s", reloc)
-                data, new_relocs = reloc.do_shrink(
-                    sym_value, data, reloc_value
-                )
+                shrunk = reloc.do_shrink(sym_value, data, reloc_value)
+                if shrunk is None:
+                    # This particular instruction has no shorter form.
+                    continue
+                data, new_relocs = shrunk
                 new_size = len(data)
                 diff = size - new_size
                 assert 0 <= diff <= size
